@@ -207,11 +207,15 @@ static void hist_child(const void *job, size_t n) {
 	}
 	hx_emit_ledger_violations("C15");
 	char dump[2048]; size_t o = 0;
-	for (int c = 0; c < NC; c++) o += (size_t) snprintf(dump + o, sizeof dump - o, "%d:%d@%02x%02x%02x;", c, present(c), sbidx[c] >= 0 ? SB.n[sbidx[c]].addr[0] : 0, sbidx[c] >= 0 ? SB.n[sbidx[c]].addr[1] : 0, sbidx[c] >= 0 ? SB.n[sbidx[c]].addr[2] : 0);
+	for (int c = 0; c < NC; c++) o += (size_t) snprintf(dump + o, sizeof dump - o, "%d:%d@%02x%02x%02x;", c, present(c), present(c) ? SB.n[sbidx[c]].addr[0] : 0, present(c) ? SB.n[sbidx[c]].addr[1] : 0, present(c) ? SB.n[sbidx[c]].addr[2] : 0);
 	for (int c = -1; c < NC; c++) { const char *id = c < 0 ? "master" : BOARD_ID[c]; if (!id) continue; t_bidib_node_address_query aq = bidib_get_nodeaddr(id);
 		o += (size_t) snprintf(dump + o, sizeof dump - o, "%s=%d@%02x%02x%02x;", id, bidib_get_board_connected(id), aq.address.top, aq.address.sub, aq.address.subsub); }
-	for (int i = 0; i < SB.nn; i++) o += (size_t) snprintf(dump + o, sizeof dump - o, "v%d", SB.n[i].tab_version);
+	/* table versions by candidate (not by simulator node index: a re-added node gets a fresh index, which is an artefact of
+	 * the order of events and made equal states look different one step later — found by the abstraction audit) */
+	o += (size_t) snprintf(dump + o, sizeof dump - o, "v%d", SB.n[0].tab_version);
+	for (int c = 0; c < NC; c++) o += (size_t) snprintf(dump + o, sizeof dump - o, "v%d", present(c) ? SB.n[sbidx[c]].tab_version : -1);
 	hx_hash_t h; hx_hash_init(&h); hx_hash_add(&h, dump, o);
+	if (getenv("VERIF_IN_REPLAY")) res_printf("X %s\n", dump);
 	res_printf("S %llx %llx\n", (unsigned long long) h.a, (unsigned long long) h.b);
 	res_finish();
 }
